@@ -16,6 +16,10 @@ CONSTANTS
   RETAINCHECK = FALSE
   TT = 100
   MTC = 100
+  UT = 6
+  SMIN = 3
+  SMAX = 9
+  XSKIP = FALSE
 INVARIANTS RetainOK Linearizable NoDeadlock ResizeSafe QuiescentOK ReadersNeverBlock IterWeak GhostOK
 PROPERTY NeverShrinks
 VIEW view
